@@ -10,6 +10,7 @@ package main
 // by the same engine that executes the code.
 
 import (
+	"strconv"
 	"fmt"
 	"go/ast"
 	"go/parser"
@@ -65,6 +66,7 @@ type FuncContract struct {
 	File     string
 	Line     int
 	// filled by generator
+	Captures   [][2]string // closures: captured variables (name, type)
 	ParamNames []string // receiver first
 	ParamTypes []string
 	ResultTypes []string
@@ -169,6 +171,20 @@ func parseContractFile(path string, pc *PkgContracts) error {
 				r = strings.Trim(r, "()")
 				for _, x := range strings.Split(r, ",") {
 					cur.Results = append(cur.Results, strings.TrimSpace(x))
+				}
+				rest = strings.TrimSpace(rest[:j])
+			}
+			if j := strings.Index(rest, " captures "); j >= 0 {
+				// closure under contract: `func (*T).M$2 captures (x *T, y int) returns (r)`: the variables the
+				// function literal captures, by their source names, in the order go/ssa lists them as free variables
+				c := strings.TrimSpace(rest[j+10:])
+				c = strings.Trim(c, "()")
+				for _, x := range strings.Split(c, ",") {
+					f := strings.Fields(strings.TrimSpace(x))
+					if len(f) != 2 {
+						return fmt.Errorf("%s:%d: bad captures list", path, i+1)
+					}
+					cur.Captures = append(cur.Captures, [2]string{f[0], f[1]})
 				}
 				rest = strings.TrimSpace(rest[:j])
 			}
@@ -434,7 +450,7 @@ func rewriteExpr(s string) string {
 }
 
 func mangle(q string) string {
-	r := strings.NewReplacer("(", "", ")", "", "*", "P", ".", "_", " ", "")
+	r := strings.NewReplacer("(", "", ")", "", "*", "P", ".", "_", " ", "", "$", "_lit")
 	return r.Replace(q)
 }
 
@@ -625,6 +641,38 @@ func genOverlay(pc *PkgContracts, files []*ast.File, specDir string) (string, er
 			pnames, ptypes = fieldListNames(fd.Type.Params, "a")
 			rnames, rtypes = fieldListNames(fd.Type.Results, "ret")
 		} else {
+			if k := strings.Index(fc.QualName, "$"); k >= 0 {
+				// the n-th function literal of the enclosing function (go/ssa numbering: source order, not nested)
+				fd, _ := funcDeclFor(files, fc.QualName[:k])
+				n, err := strconv.Atoi(fc.QualName[k+1:])
+				var lit *ast.FuncLit
+				if fd != nil && err == nil && fd.Body != nil {
+					cnt := 0
+					ast.Inspect(fd.Body, func(nd ast.Node) bool {
+						if fl, ok := nd.(*ast.FuncLit); ok {
+							cnt++
+							if cnt == n {
+								lit = fl
+							}
+							return false
+						}
+						return true
+					})
+				}
+				if lit == nil {
+					pc.BindErrors = append(pc.BindErrors, fmt.Sprintf("bind:%s.%s: no such function literal in package source", pc.Name, fc.QualName))
+					fc.Unbound = true
+					continue
+				}
+				for _, c := range fc.Captures {
+					pnames = append(pnames, c[0])
+					ptypes = append(ptypes, c[1])
+				}
+				pn, pt := fieldListNames(lit.Type.Params, "a")
+				pnames = append(pnames, pn...)
+				ptypes = append(ptypes, pt...)
+				rnames, rtypes = fieldListNames(lit.Type.Results, "ret")
+			} else {
 			fd, _ := funcDeclFor(files, fc.QualName)
 			if fd == nil {
 				pc.BindErrors = append(pc.BindErrors, fmt.Sprintf("bind:%s.%s: no such function in package source", pc.Name, fc.QualName))
@@ -638,6 +686,7 @@ func genOverlay(pc *PkgContracts, files []*ast.File, specDir string) (string, er
 			pnames = append(pnames, pn...)
 			ptypes = append(ptypes, pt...)
 			rnames, rtypes = fieldListNames(fd.Type.Results, "ret")
+			}
 		}
 		if len(fc.Results) > 0 {
 			if len(fc.Results) != len(rtypes) {
